@@ -60,7 +60,22 @@ def _c08(tier, seed):
              validate_runs=["H_C08_errcode()", "H_C08_noncode(28)"], covers={"H_C08_noncode": ["accepted"]}),
     ]
 
+def _c17(tier, seed):
+    q = tier == "quick"
+    sig = 4 if q else 7
+    runs = ["H_C17_table(%d,%d)" % (r, sig) for r in range(15)] + ["H_C17_arbitrary(%d)" % (12 if q else 20), "H_C17_catalogue()"]
+    return [dict(name="errors", pkg=".", harness=["harness/root/c17.go"], runs=runs, solver="z3",
+                 validate_runs=["H_C17_table(4,4)", "H_C17_table(5,4)", "H_C17_arbitrary(12)", "H_C17_catalogue()"],
+                 covers={"H_C17_table": ["numeric", "non-numeric"], "H_C17_arbitrary": ["no-row"]})]
+
 PROPS = {
+    "C17": dict(
+        jobs=_c17,
+        bounds={"quick": "each of the 15 table rows with every parameter string of length 0..4 (all bytes symbolic: digits, signs, non-digits, '%'); every error text of length 0..12 with every 32-bit code; all catalogue entries (ground)",
+                "thorough": "parameter strings 0..7; texts 0..20"},
+        outside="longer texts / parameters (incl. integers overflowing int); formatting of descriptions that take a parameter (fmt is stubbed); delivery to the caller and PHONE_MIGRATE handling (needs the request loop; see C09/C16 notes)",
+        assumptions=["fmt.Sprintf/Errorf and pkg/errors are opaque total functions"],
+    ),
     "C08": dict(
         jobs=_c08,
         bounds={"quick": "abridged/intermediate frames for every word count 0..8 and 120..132 (both sides of the 127-word switch), all payload bits symbolic; unaligned lengths 0..17; sequences of 2 messages; arbitrary headers for <= 6 words; Detect on every 0..5 byte prefix; transport.ReadMsg: every 32-bit error word, frames of 0..28 bytes",
